@@ -829,6 +829,58 @@ fn scenario_kill_then_drop(seed: u64) {
 }
 
 // ------------------------------------------------------------------------------------------------
+// C17 / C03: many blocking_ask(None) calls in a row from several threads on a live actor (and, at the end, on a killed
+// one). Each call parks its thread until the reply - or the closing of the mailbox - wakes it: a wake-up that is lost
+// between the caller's poll and its park leaves the thread asleep for ever (Miri's deadlock verdict). High pre-emption
+// rates, so that the caller is descheduled inside that window.
+fn scenario_blocking_ask_storm(seed: u64) {
+    let mut rng = Rng(seed);
+    let rt = rt();
+    let (r, jh, _journal, _g) = new_actor(&rt, 4, false);
+    let per = 10 + rng.below(10);
+    let kill_at_end = rng.below(2) == 0;
+    let mut threads = Vec::new();
+    for c in 0..2 + rng.below(2) {
+        let r = r.clone();
+        threads.push(std::thread::spawn(move || {
+            let mut bad = 0;
+            for i in 0..per {
+                let id = (c + 1) * 1000 + i;
+                match r.blocking_ask(Job(id, false), None) {
+                    Ok(rc) if rc.id == id => {}
+                    Ok(_) => bad += 1,
+                    Err(_) => bad += 100,
+                }
+            }
+            bad
+        }));
+    }
+    let mut bad = 0;
+    for t in threads {
+        bad += t.join().unwrap();
+    }
+    if bad != 0 {
+        violation("C17", "storm-wrong-reply", format!("blocking_ask storm on a live actor: error score {bad} (1 per wrong reply, 100 per error)"));
+    }
+    if kill_at_end {
+        // callers that start while the actor is being killed: every call returns
+        let mut late = Vec::new();
+        for c in 0..2u64 {
+            let r = r.clone();
+            late.push(std::thread::spawn(move || r.blocking_ask(Job(9000 + c, false), None).is_ok()));
+        }
+        r.kill().unwrap();
+        for t in late {
+            let _ = t.join().unwrap();
+        }
+    } else {
+        rt.block_on(r.stop()).unwrap();
+    }
+    let _ = rt.block_on(jh);
+    ev(format!("blocking-ask-storm per={per} kill_at_end={kill_at_end} bad={bad}"));
+}
+
+// ------------------------------------------------------------------------------------------------
 // C06 from a plain thread: kill() never blocks, busy actor or not, first call or repeated. The handler in progress
 // only finishes after kill() has returned twice (the gate opens afterwards), so a kill() that waits for the actor
 // leaves every thread blocked: Miri's deadlock verdict. Afterwards: killed = true, leftovers never handled, their asks fail.
@@ -1506,6 +1558,7 @@ fn main() {
         "erased_blocking" => scenario_erased_blocking(seed),
         "timed_independent" => scenario_timed_independent(seed),
         "kill_busy_from_thread" => scenario_kill_busy_from_thread(seed),
+        "blocking_ask_storm" => scenario_blocking_ask_storm(seed),
         "timed_blocking_vs_end" => scenario_timed_blocking_vs_end(seed),
         "metrics_mt" => scenario_metrics_mt(seed),
         "blocking_ask_vs_end" => scenario_blocking_ask_vs_end(seed),
